@@ -373,6 +373,7 @@ func (s *Store) NewFromOAuth2(ctx context.Context, provider string, details map[
 	defer s.mu.Unlock()
 	if u, ok := s.users[pid]; ok {
 		c := u.clone()
+		c.OAuth2UID, c.OAuth2Provider = uid, provider
 		if e, ok := details["email"]; ok {
 			c.Email = e
 		}
